@@ -3,6 +3,8 @@
 From Coq Require Import ZArith List Bool.
 From Centro Require Import Base.Sx Model.Lapjv Spec.Lapjv Proofs.LapjvCert Proofs.LapjvRefute Proofs.LapjvTrack
   Proofs.LapjvPhases Proofs.LapjvAbstract Proofs.LapjvGrid Proofs.LapjvArr Proofs.LapjvRows Proofs.LapjvTrackCost Proofs.LapjvRt Proofs.LapjvHall Proofs.LapjvBsearch Proofs.LapjvTrackLink Proofs.LapjvArrExt Proofs.LapjvExtModel Proofs.LapjvAugMarks Proofs.LapjvAugFlip Proofs.LapjvAugPred Proofs.LapjvAugRows Proofs.LapjvPerm Proofs.LapjvFixedPerm Proofs.LapjvAugFuel Proofs.LapjvAugPrice Proofs.LapjvAugStamps Proofs.LapjvAugOpt Proofs.LapjvAugDist Proofs.LapjvAugDistHyp Proofs.LapjvAugPriceExt Proofs.LapjvReserved Proofs.LapjvRefPerm Proofs.LapjvAugDistR Proofs.LapjvAugDistHypR Proofs.LapjvAugTotalR Proofs.LapjvRefTotal Proofs.LapjvReservedOpt Proofs.LapjvAugDistE Proofs.LapjvRefAll.
+From Coq Require Floats.
+From Centro Require Proofs.LapjvFloatStall.
 Import ListNotations.
 Open Scope Z_scope.
 
@@ -763,6 +765,33 @@ Theorem C01_aug_rows_all_ext : forall (n : nat) (rows : list (list (nat * ext)))
     InvE n rows (m_x sf) (m_y sf) (m_v sf) /\ Ord n rows (m_y sf) (m_v sf).
 Proof. exact aug_rows_allE. Qed.
 Print Assumptions C01_aug_rows_all_ext.
+
+(* Round 15, finding F35.  SCOPE OF ALL THEOREMS ABOVE: exact arithmetic on the cost grid (Model.Lapjv computes in
+   ext = Fin Z | +inf | -inf | NaN; the check feeds the implementation dyadic costs on which binary64 is exact).  Outside that
+   grid augmenting_row_reduction can stall: kernel-evaluated binary64 values (Coq primitive floats; the four constants are
+   pinned by their exact mantissa / exponent) from the witness lapjv([0,0,0,1,1,1,2,2,2],[0,1,2,0,1,2,0,1,2],
+   [1e16,.5,1,1e16,.5,1,1e16,0,0],True,1): v = 1e16, u1 = 0, u2 = 0.5, eps = 2^-26 - the strict branch `u1 + eps < u2` of
+   _lapjv.pyx:202 is taken, and the update `v[j1] = v[j1] - u2 + u1` (evaluated (v - u2) + u1 as in the .pyx) returns v
+   bit for bit; the code nevertheless re-queues the evicted row (`k -= 1; p_i[k] = i1`) and two rows evict each other forever.
+   Print Assumptions lists the kernel's float / int63 primitives only. *)
+Theorem C01_arr_float_stall_refuted :
+  FloatOps.Prim2SF LapjvFloatStall.stall_v = SpecFloat.S754_finite false 5000000000000000%positive 1 /\
+  FloatOps.Prim2SF LapjvFloatStall.stall_u1 = SpecFloat.S754_zero false /\
+  FloatOps.Prim2SF LapjvFloatStall.stall_u2 = SpecFloat.S754_finite false 4503599627370496%positive (-53) /\
+  FloatOps.Prim2SF LapjvFloatStall.stall_eps = SpecFloat.S754_finite false 4503599627370496%positive (-78) /\
+  PrimFloat.ltb (PrimFloat.add LapjvFloatStall.stall_u1 LapjvFloatStall.stall_eps) LapjvFloatStall.stall_u2 = true /\
+  PrimFloat.eqb (PrimFloat.add (PrimFloat.sub LapjvFloatStall.stall_v LapjvFloatStall.stall_u2) LapjvFloatStall.stall_u1)
+                LapjvFloatStall.stall_v = true.
+Proof. exact LapjvFloatStall.arr_float_stall. Qed.
+Print Assumptions C01_arr_float_stall_refuted.
+
+(* ... whereas in the exact model the same update strictly lowers the price - the fact the termination of the retry loop rests
+   on; it does not transfer to binary64. *)
+Theorem C01_arr_update_strict_exact : forall v u1 u2 eps : Z, 0 <= eps ->
+  eltb (eadd (Fin u1) (Fin eps)) (Fin u2) = true ->
+  exists v', eadd (esub (Fin v) (Fin u2)) (Fin u1) = Fin v' /\ v' < v.
+Proof. exact LapjvFloatStall.arr_update_strict_exact. Qed.
+Print Assumptions C01_arr_update_strict_exact.
 
 (* completeness of phases 1-3 (every row is pending or assigned) ... *)
 Theorem C01_phase1_comp : forall n tri,
